@@ -4,10 +4,10 @@
    The logged operation sequence is replayed through the REFERENCE machine of FilesFS (handle state
    advanced by the logged results) and every logged result must satisfy the contract.
    Mode = "judge"       the contract holds (property-level; the only source of verdicts)
-   Mode = "as_written" / "fixed"   the observation equals the prediction of the implementation-shaped
-                        model in that variant (model_drift measurement, diagnostic only). *)
+   Mode = "drift"       which variant ("as_written", "fixed") of the implementation-shaped model predicts the
+                        observation exactly (model_drift measurement, diagnostic only). *)
 EXTENDS FilesFS, TLC, Json
-CONSTANT Mode
+CONSTANTS Mode, KeepPerCause
 
 Defined(r) == TreeOk(r.files)          \* the property speaks about valid, non-conflicting maps only
 Predicted(r, variant) ==
@@ -15,15 +15,15 @@ Predicted(r, variant) ==
   /\ r.open.err = o.err
   /\ (o.err = "nil" => r.res = ImplRunFrom(r.files, o.g, r.res, 1, variant))     \* r.res[i] carries op and n
 \* "" = accepted (or outside the property's precondition: skipped and counted, never failed)
+DriftCause(pa, pf) == IF pa /\ pf THEN "" ELSE IF ~pa /\ ~pf THEN "drift-both" ELSE IF ~pa THEN "drift-as_written" ELSE "drift-fixed"
 RecCause(r) == IF ~Defined(r) THEN ""
                ELSE IF Mode = "judge" THEN CaseCause(r.files, r.name, r.open, r.res)
-               ELSE IF Predicted(r, Mode) THEN "" ELSE "drift"
+               ELSE DriftCause(Predicted(r, "as_written"), Predicted(r, "fixed"))
 Sig(c) == [fam |-> "filesfs", cause |-> c]
 
 (* ---- record walk: as the skeleton of spec/lib2/Trace_HTMLEscape.tla, except that the bad records kept
         are the first KeepPerCause of EVERY distinct cause (bounded, so not quadratic): thousands of
         records of an already known cause must not hide one record of a new cause ---- *)
-KeepPerCause == 5
 VARIABLES l, nbad, nskip, bad, cnt
 Obs == ndJsonDeserialize("obs.ndjson")
 Init == l = 1 /\ nbad = 0 /\ nskip = 0 /\ bad = <<>> /\ cnt = <<>>
